@@ -174,7 +174,17 @@ func execRr(raw json.RawMessage) (res execResult, err error) {
 		q := eQuery{A: op.A}
 		switch op.Op {
 		case "hint":
-			p := safeCall(func() { s.WithHint(op.Hint...) })
+			// the hints come from a buffer of the caller's, refilled (here: with other documents' ids) as soon as
+			// WithHint has returned -- e.g. to prime the next scanner
+			buf := append([]int64(nil), op.Hint...)
+			p := safeCall(func() { s.WithHint(buf...) })
+			for k := range buf {
+				if len(c.Docs) > 0 {
+					buf[k] = c.Docs[(k+len(opLits))%len(c.Docs)].ID
+				} else {
+					buf[k] = -int64(k) - 1
+				}
+			}
 			lit = fmt.Sprintf("ROHint %s", zlist(op.Hint))
 			rlit = "RIUnit"
 			if p {
@@ -383,7 +393,7 @@ func genRrCase(r *Rand, nFields int, acPct int, hintPct int, nOps int, nScanners
 	return c
 }
 
-const rrRule = "seeded roaring cases: 1..5 configured fields (0 fields rarely), document sets as in C01 with ids up to +-(2^55-1), operation sequences over 1..4 scanners sharing one index (Reset, WithHint with known/unknown/out-of-range ids, Retrieve, RetrieveDocs, GetRawResult, also without Reset in between; a third more cases over a pattern-container field; a third more cases with failing retrievals (unsupported value on one field) injected on other scanners); document ids added again with other or fewer conjunctions (outside the specification's domain: decided by the model leg), indexes of catch-all documents only, include lists that are empty; non-trivial = some retrieval returns a non-empty proper subset of the accepted documents; distinct = distinct input"
+const rrRule = "seeded roaring cases: 1..5 configured fields (0 fields rarely), document sets as in C01 with ids up to +-(2^55-1), operation sequences over 1..4 scanners sharing one index (Reset, WithHint with known/unknown/out-of-range ids, Retrieve, RetrieveDocs, GetRawResult, also without Reset in between; a third more cases over a pattern-container field; a third more cases with failing retrievals (unsupported value on one field) injected on other scanners); document ids added again with other or fewer conjunctions (outside the specification's domain: decided by the model leg), indexes of catch-all documents only, include lists that are empty; the hint ids are passed from a caller's buffer that is refilled with other ids as soon as WithHint has returned; non-trivial = some retrieval returns a non-empty proper subset of the accepted documents; distinct = distinct input"
 
 func init() {
 	mk := func(hintPct int, zeroFields bool) func(tier string, r *Rand, add func(in interface{})) {
